@@ -16,6 +16,7 @@ package peersharing
 
 import (
 	"fmt"
+	"sync"
 
 	"github.com/blinklabs-io/gouroboros/protocol"
 )
@@ -25,6 +26,7 @@ type Client struct {
 	*protocol.Protocol
 	config          *Config
 	callbackContext CallbackContext
+	busyMutex       sync.Mutex
 	sharePeersChan  chan []PeerAddress
 }
 
@@ -77,6 +79,10 @@ func (c *Client) GetPeers(amount uint8) ([]PeerAddress, error) {
 			"role", "client",
 			"connection_id", c.callbackContext.ConnectionId.String(),
 		)
+	// One request at a time: replies carry no request identifier, so two
+	// concurrent callers could otherwise receive each other's peers
+	c.busyMutex.Lock()
+	defer c.busyMutex.Unlock()
 	msg := NewMsgShareRequest(amount)
 	if err := c.SendMessage(msg); err != nil {
 		return nil, err
